@@ -20,7 +20,7 @@ def typeInfo (c : Nat) (mask : Nat) (dv : Bool) : TypeInfo :=
     create := mask.testBit 0, copy := mask.testBit 1, move := mask.testBit 2, moveCtor := mask.testBit 3,
     destroy := mask.testBit 4
     createTok := 1000 + c
-    defaultValue := if dv then some (1000 + c) else none }
+    defaultValue := if dv then some (2000 + c) else none }   -- distinct from the constructor's token
 
 structure CSt where
   s : St := {}
